@@ -2051,6 +2051,18 @@ func (db *DB) CommitJournal(ctx context.Context, mode JournalMode) (err error) {
 			pgnos = append(pgnos, pgno)
 		}
 	}
+
+	// When the database grows, SQLite does not write the pages it allocated and
+	// freed again within the transaction. They exist in the file as zeroes
+	// behind the pages it did write and they are part of the new image, so
+	// they belong in the LTX file and in the checksum like any other new page.
+	unwritten := make(map[uint32]struct{})
+	for pgno := prevPageN + 1; pgno <= commit; pgno++ {
+		if _, ok := db.dirtyPageSet[pgno]; !ok {
+			unwritten[pgno] = struct{}{}
+			pgnos = append(pgnos, pgno)
+		}
+	}
 	sort.Slice(pgnos, func(i, j int) bool { return pgnos[i] < pgnos[j] })
 
 	// Open file descriptors for the header & page blocks for new LTX file.
@@ -2110,6 +2122,9 @@ func (db *DB) CommitJournal(ctx context.Context, mode JournalMode) (err error) {
 
 		// Verify updated page matches in-memory checksum.
 		db.chksums.mu.Lock()
+		if _, ok := unwritten[pgno]; ok {
+			db.setDatabasePageChecksum(pgno, ltx.ChecksumPage(pgno, buf))
+		}
 		pageChksum, ok := db.pageChecksum(pgno, commit, nil)
 		db.chksums.mu.Unlock()
 		if !ok {
